@@ -115,6 +115,48 @@ class FaultyStream(io.StringIO):
         return len(s)
 
 
+class LineTracer:
+    """Interrupt at an arbitrary *source line* of the stateful functions of yadism (the closest
+    model of ^C): ``sys.settrace`` line events inside a fixed set of code objects are one more
+    seam site (``line``).  Tracing is only switched on for ops that carry a ``line`` decision, so
+    other ops run at full speed; frames of other functions are not traced at all."""
+
+    def __init__(self, sched):
+        self.sched = sched
+        self.codes = set()
+        self.where = None
+
+    def add_targets(self, *funcs):
+        for f in funcs:
+            f = getattr(f, "__func__", f)
+            code = getattr(f, "__code__", None)
+            if code is not None:
+                self.codes.add(code)
+
+    def _local(self, frame, event, arg):
+        if event == "line":
+            d = self.sched.consult("line")
+            if d is not None and d["do"] == "interrupt_line":
+                self.where = (frame.f_code.co_name, frame.f_lineno)
+                raise SimInterrupt(f"interrupt@line {frame.f_code.co_name}:{frame.f_lineno}")
+        return self._local
+
+    def _global(self, frame, event, arg):
+        if event == "call" and frame.f_code in self.codes:
+            return self._local
+        return None
+
+    def start(self):
+        import sys
+
+        sys.settrace(self._global)
+
+    def stop(self):
+        import sys
+
+        sys.settrace(None)
+
+
 class Seams:
     """Install / remove the C14/C20 seams around the real yadism code."""
 
@@ -253,6 +295,37 @@ class Seams:
                     self.refresh()
 
         self._patch(rich.progress, "Progress", SimProgress)
+
+        # --- line-level interrupt targets: the functions that own in-flight state ---------
+        self.lines = LineTracer(sched)
+        try:
+            import yadism.esf.esf as esfmod
+            import yadism.esf.exs as exsmod
+            import yadism.esf.tmc as tmcmod
+            import yadism.input.compatibility as compat
+            import yadism.xs as xsmod
+
+            self.lines.add_targets(
+                esfmod.EvaluatedStructureFunction.compute_local, esfmod.EvaluatedStructureFunction.get_result,
+                esfmod.EvaluatedStructureFunction.__init__,
+                runner_mod.Runner.get_result, runner_mod.Runner.__init__, runner_mod.Runner.get_sf,
+                runner_mod.Runner.drop_cache, runner_mod.Runner.replace_nans_with_0,
+                orig_get_esf, sfmod.StructureFunction.load, sfmod.StructureFunction.get_result,
+                sfmod.StructureFunction.drop_cache,
+                xsmod.CrossSection.load, xsmod.CrossSection.get_esf, xsmod.CrossSection.get_result,
+                exsmod.EvaluatedCrossSection.get_result, exsmod.EvaluatedCrossSection.__init__,
+                tmcmod.EvaluatedStructureFunctionTMC.get_result, tmcmod.EvaluatedStructureFunctionTMC._convolve_FX,
+                tmcmod.EvaluatedStructureFunctionTMC.__init__,
+                svmod.ScaleVariations.compute_raw, svmod.ScaleVariations.fact_matrices,
+                svmod.ScaleVariations.apply_common_scale_variations, svmod.ScaleVariations.apply_diff_scale_variations,
+                compat.update, compat.update_fns, compat.update_target, compat.update_scale_variations,
+            )
+            for cls in tmcmod.ESFTMCmap.values():
+                for nm in ("_get_result_APFEL", "_get_result_approx", "_get_result_exact", "__init__"):
+                    if nm in cls.__dict__:
+                        self.lines.add_targets(cls.__dict__[nm])
+        except Exception:  # noqa: BLE001 - degrades to fewer targets if the code is refactored
+            self.probes["seam_degraded_line_targets"] += 1
         return self
 
     def apply_eviction(self, do, sf=None, runner=None):
